@@ -499,6 +499,7 @@ class Client(base_client.BaseClient):
     def _handle_eio_connect(self):
         """Handle the Engine.IO connection event."""
         self.logger.info('Engine.IO connection established')
+        self._transport_ended = False
         self.sid = self.eio.sid
         real_auth = self._get_real_value(self.connection_auth) or {}
         for n in self.connection_namespaces:
@@ -507,6 +508,10 @@ class Client(base_client.BaseClient):
 
     def _handle_eio_message(self, data):
         """Dispatch Engine.IO messages."""
+        if self._transport_ended:
+            # a message that was received before the transport ended, but is
+            # dispatched after the disconnection has already been processed
+            return
         if self._binary_packet:
             pkt = self._binary_packet
             if pkt.add_attachment(data):
@@ -536,6 +541,7 @@ class Client(base_client.BaseClient):
     def _handle_eio_disconnect(self, reason):
         """Handle the Engine.IO disconnection event."""
         self.logger.info('Engine.IO connection dropped')
+        self._transport_ended = True
         will_reconnect = self.reconnection and self.eio.state == 'connected'
         if self.connected:
             for n in self.namespaces:
